@@ -134,7 +134,12 @@ class C10(DiffCheck):
         inner = [k for op, ks in per_op.items() if op is not None for k in ks[:-1]]
         outer = [ks[-1] for op, ks in per_op.items() if op is not None]
         if tier == "thorough":
-            chosen = list(inner) + ([outer[picks[0] % len(outer)]] if outer else [])
+            chosen = list(inner)
+            if outer:
+                chosen += [outer[picks[0] % len(outer)], outer[picks[2] % len(outer)]]
+                chosen += [ks[-1] for opi, ks in per_op.items() if opi is not None and script[opi].get("op") == "send"
+                           and script[opi]["msg"].get("type") in ("release", "close")]
+            chosen = sorted(set(chosen))
         else:
             pool = inner if inner else outer
             chosen = sorted(set(pool[p % len(pool)] for p in picks)) if pool else []
